@@ -303,3 +303,33 @@ def check(ctx, rep: Report):
             rep.oblige("C17.LIVE", f"{hid}:{n}", ok)
             if not ok:
                 rep.violate(Violation("C17.LIVE", f"C17.LIVE|{hid}|{n}", f"{hid}: advertised parameter `{n}` never reaches the behaviour", f"{h.impl.module.relpath}:{h.impl.node.lineno}", hid))
+
+
+    # ---- LIVE (semantic): the tri-state _by_index keyword reaches the lookup mode (shared with C06.IDX)
+    from .base import pmap
+    from .c06 import byindex_worker
+    modes = {r["mode"]: r for r in pmap(byindex_worker, ["default", "true", "false"])}
+    bad = []
+    if modes["true"]["checks"] or "getitem" not in modes["true"]["reads"] or "index" in modes["true"]["reads"]:
+        bad.append("_by_index=True does not select the positional lookup")
+    if modes["false"]["checks"] or "index" not in modes["false"]["reads"] or "getitem" in modes["false"]["reads"]:
+        bad.append("_by_index=False is not honoured (the lookup mode is re-derived from the value's type)")
+    if not modes["default"]["checks"]:
+        bad.append("_by_index default no longer derives the mode from the element type")
+    rep.oblige("C17.LIVE", "_by_index reaches SequenceMutator._extractor", not bad, "; ".join(bad))
+    for b_ in bad:
+        rep.violate(Violation("C17.LIVE", f"C17.LIVE|_by_index|{b_[:50]}", f"advertised keyword `_by_index`: {b_}", "", "SequenceMutator._extractor"))
+
+    # ---- REACH: keywords advertised by __init__ (all init-enabled attributes of the class, inherited ones included)
+    # reach a constructor that applies them: parent constructors must span the whole MRO (shared with C09.PAR)
+    rep.rules["C17.REACH"] = "every advertised constructor keyword reaches the constructor of the class that owns the attribute"
+    from .c09 import init_worker as c09_init
+    r = c09_init("own")
+    parents = {e[1] for row in r["rows"] for e in row["trace"] if e[0] == "PARENT"}
+    bad = [pz for pz in parents if ".mro()" not in pz]
+    if not parents:
+        bad = ["<no parent constructor call>"]
+    rep.oblige("C17.REACH", "InitMethod.init parents", not bad, str(bad))
+    for pz in bad:
+        rep.violate(Violation("C17.REACH", "C17.REACH|parents-not-mro", f"the constructor advertises the attributes of every ancestor but only invokes the constructors of `{pz.split('/.__init__')[0]}`: a keyword for a grandparent-owned attribute is accepted and silently dropped",
+                              "", "InitMethod.init"))
